@@ -38,6 +38,7 @@ type TLCJob struct {
 	KeepDir  bool
 	DFS      bool // use the depth-first state queue (trace validation with branching)
 	Simulate string
+	ReadBack []string // files to read back from the scratch dir after the run
 }
 
 // TLCResult is the parsed outcome.
@@ -53,6 +54,7 @@ type TLCResult struct {
 	Dir       string
 	Wall      time.Duration
 	Finished  bool // saw the completion line
+	Files     map[string][]byte
 }
 
 var (
@@ -132,6 +134,12 @@ func RunTLC(tag string, job TLCJob) (*TLCResult, error) {
 			res.ExitCode = ee.ExitCode()
 		} else {
 			res.ExitCode = -1
+		}
+	}
+	res.Files = map[string][]byte{}
+	for _, f := range job.ReadBack {
+		if b, err := os.ReadFile(filepath.Join(dir, f)); err == nil {
+			res.Files[f] = b
 		}
 	}
 	ms := reStates.FindAllStringSubmatch(res.Output, -1)
